@@ -9,6 +9,7 @@ CLAIMED = {
  'C03': ('panic-freedom of blocks -> graph -> tree -> projection: every reachable panic edge of the real MIR within the bounds is reported', '3 C03'),
  'C07': ('outline laws with symbolic heading levels: order kept, emitted outline well nested, well-nested input keeps identical levels, '
          'blocks stay under the nearest preceding heading / same list item / quote', '3 C07'),
+ 'C13': ('offset -> line/column kernels: to_line_range / to_inline_range for every sorted line table and byte range (symbolic 64-bit), line_starts for every line structure with LF / CRLF terminators and symbolic line lengths', '3 C13'),
  'C20': ('arena representation invariant established by every build within the bounds', '3 C20'),
 }
 NA = {
